@@ -13,7 +13,8 @@ fn run(case: &mut Case) -> Result<Outcome, String> {
     let kind = case.src.usize_below(KINDS.len());
     // quick tier: the B^T B + mu I systems (the ones whose runs are long) are generated at twice the order drawn, 2..=60,
     // so that runs of more than 100 iterations occur in every tier
-    let n = if case.tier == Tier::Quick && KINDS[kind] == "spd-btb" { 2 * n } else { n };
+    // ... and for every other kind the top of the quick range, 26..=30, stands for the orders 56..=60
+    let n = if case.tier == Tier::Quick && KINDS[kind] == "spd-btb" { 2 * n } else if case.tier == Tier::Quick && n > 25 { n + 30 } else { n };
     let mut a = gen_matrix(&mut case.src, n, kind);
     let badly_scaled = case.src.below(6) == 0;
     if badly_scaled {
@@ -111,6 +112,9 @@ fn one_solver(case: &mut Case, solver: usize, sp: &ohsl::Sparse<f64>, bv: &Vecto
         }
         Ok(it) => {
             case.class(format!("{} {} Ok", SOLVERS[solver], kind_name));
+            if it > 100 {
+                case.class(format!("{} Ok after more than 100 iterations", SOLVERS[solver]));
+            }
             if it >= 2 && n >= 5 {
                 case.mark_nontrivial();
             }
